@@ -106,6 +106,9 @@ class ShuffleBase(Expr):
             partitioning_index = self.partitioning_index
             if isinstance(partitioning_index, (str, int)):
                 partitioning_index = [partitioning_index]
+            elif not isinstance(partitioning_index, (list, tuple)):
+                # shuffling on the index: no column is needed for the shuffle
+                partitioning_index = []
 
             target = self.frame
             new_projection = [
